@@ -201,6 +201,7 @@ def register_vector(sp, v, w=None, E=None, PV=None):
             p.assume(REGALL(v, w, E, PV, z3.IntVal(0)))
             # Skolem witnesses for the closed forms at n        lean: exists_prefix_elim / forall_prefix_intro
             sk1 = skolem(ip, "sk_occ", n)
+            add_index(ip, sk1, loop=True)        # candidate for psum_single: the position where the variable occurs
             p.assume(z3.Implies(OCCV(v, w, n), z3.And(sk1 >= 0, sk1 < n, OCCE(v, sk1, w))))
             sk2 = skolem(ip, "sk_reg", n)
             p.assume(z3.Or(REGALL(v, w, E, PV, n), z3.And(sk2 >= 0, sk2 < n, z3.Not(REGV(v, sk2, w, E, PV)))))
@@ -325,3 +326,65 @@ def all_hook(ip, S, node=None):
     P = named_forall(ip, name, [], n, pred)
     saturate(ip)
     return SBool(P(n))
+
+
+def keyed_map(ip, S, key_fn, val_fn, n=None, desc="dict", require_distinct=True):
+    """dict built from a sequence with Variable keys ({k(e): v(e) for e in S} or the equivalent loop): an SMap whose lookup
+    goes through a position function POS: Name -> Int.
+
+        indom(nm)   :=  0 <= POS(nm) < n  and  key(POS(nm)) = nm
+        completeness (instantiated at every index term in use):  0 <= k < n and key(k) = nm  =>  indom(nm)
+        lookup(nm)  :=  val(POS(nm))
+
+    Python keeps the LAST value written for a key; the model returns the value at *a* position holding the key, which is
+    the same thing when the keys of S are pairwise distinct.  That holds for the `_variables` list of a vector (A6, whose
+    instances are generated for every pair of index terms, POS(nm) included); any other source is refused."""
+    from pyvc.values import SMap
+    if require_distinct and not (S.tag and S.tag[0] == "field" and S.tag[1] == "_variables"):
+        raise Unsupported("dict keyed by Variables built from a sequence whose keys are not known to be distinct")
+    n = ip.models.len_term(S.n) if n is None else n
+    POS = fn(sym.fresh("POS", I).decl().name().replace("!", "_"), Name, I)
+    s = seqs(ip)
+    asked: list = []
+    kmemo: dict = {}
+    vmemo: dict = {}
+    key_fn0, val_fn0 = key_fn, val_fn
+
+    def key_fn(k):                       # the key / value expressions are re-evaluated from the AST: once per index term
+        kk = str(k)
+        if kk not in kmemo:
+            kmemo[kk] = key_fn0(k)
+        return kmemo[kk]
+
+    def val_fn(k):
+        kk = str(k)
+        if kk not in vmemo:
+            vmemo[kk] = val_fn0(k)
+        return vmemo[kk]
+
+    def instantiate(nm, k):
+        if _once(ip, f"kmap:{POS}:{nm}:{k}"):
+            pos = POS(nm)
+            ip.path.assume(z3.Implies(z3.And(k >= 0, k < n, key_fn(k) == nm),
+                                      z3.And(pos >= 0, pos < n, key_fn(pos) == nm)))
+
+    def pw(k):
+        for nm in list(asked):
+            instantiate(nm, k)
+    s.pointwise.append(pw)
+
+    def indom(nm):
+        pos = POS(nm)
+        if not any(nm.eq(a) for a in asked):
+            asked.append(nm)
+            add_index(ip, pos, loop=True)      # also a psum_single candidate: the position of the key
+            index_used(ip, pos)
+            for k in list(s.idx):
+                instantiate(nm, k)
+        return z3.And(pos >= 0, pos < n, key_fn(pos) == nm)
+
+    def lookup(nm):
+        indom(nm)
+        return val_fn(POS(nm))
+    m = SMap(indom, lookup, desc)
+    return m
